@@ -106,6 +106,15 @@ def run(prop, tier, seed, replay=None):
     core.cargo_build()
     if replay:
         rp = json.load(open(replay))
+        if "size_limit" in rp["instance"]:
+            sl = core.mt("size-limits", None, os.path.join(wd, "size.json"), seed, {"max_e": 12})
+            known = core.load_known()
+            new = [v for v in sl["violations"] if v["property"] == prop and not core.match_known(prop, v, known)]
+            print(("VIOLATION property=%s replay=%s" % (prop, replay)) if new else ("OK property=%s (replay)" % prop))
+            return 1 if new else 0
+        if "line" not in rp["instance"]:
+            from . import p_sample
+            return p_sample.run(prop, tier, seed, replay)
         inp = os.path.join(wd, "replay.ndjson")
         core.write_lines(inp, [rp["instance"]["line"]])
         s = core.mt("replay-table", inp, os.path.join(wd, "sum.json"), rp.get("seed", seed),
